@@ -5,7 +5,7 @@ use crate::rng::derive;
 use std::collections::{BTreeMap, BTreeSet, HashSet};
 use std::panic::{catch_unwind, AssertUnwindSafe};
 use std::sync::atomic::{AtomicBool, AtomicU64, Ordering};
-use std::sync::{Arc, Mutex};
+use std::sync::Mutex;
 use std::time::{Duration, Instant};
 
 /// A property violation observed in one run.
@@ -117,6 +117,10 @@ pub trait Layer: Sync {
     fn required_probes(&self, _config: u64) -> Vec<usize> {
         Vec::new()
     }
+    /// Runs per chunk (= per fresh process). Fixed per layer: it is part of what a seed means.
+    fn chunk_runs(&self) -> u64 {
+        8192
+    }
     /// Harness self-check over the merged statistics of a batch (never a property verdict).
     fn self_check(&self, _stats: &Stats) -> Option<String> {
         None
@@ -205,6 +209,14 @@ pub fn panic_class(msg: &str) -> String {
 
 // ---------------------------------------------------------------------------------------
 // batch driver
+//
+// A batch is cut into chunks of consecutive runs. Every chunk is executed sequentially in a
+// FRESH child process (`sim chunk ...`); the parent process only schedules children and merges
+// their results and never executes code of the system under test. Consequences:
+//   * run i is a pure function of (seed, layer, config, the runs before it in its chunk) — also
+//     when the system under test keeps process-wide state — and independent of the number of
+//     workers and of which worker ran what;
+//   * "runs from..=i of this batch, in one fresh process" is therefore always an exact replay.
 
 pub struct BatchCfg {
     pub seed: u64,
@@ -212,8 +224,8 @@ pub struct BatchCfg {
     pub scale: u32,
     /// fixed number of runs (quick tier) ...
     pub runs: u64,
-    /// ... or, when set, keep starting chunks of runs until this much wall time has passed
-    /// (thorough tier). A started run always finishes; the number of runs is reported.
+    /// ... or, when set, keep starting chunks until this much wall time has passed (thorough
+    /// tier). A started chunk always finishes; the number of runs is reported.
     pub time_budget: Option<Duration>,
     pub workers: usize,
     pub samples: usize,
@@ -222,6 +234,8 @@ pub struct BatchCfg {
 pub struct Failure<C> {
     pub run: u64,
     pub run_seed: u64,
+    /// first run of the chunk (= of the process) in which it was observed
+    pub chunk_start: u64,
     pub case: C,
     pub violation: Violation,
 }
@@ -238,7 +252,7 @@ pub struct BatchResult<C> {
     pub harness_errors: Vec<String>,
     pub samples: Vec<(u64, C)>,
     pub wall: Duration,
-    pub hang: Option<(u64, u64)>,
+    pub chunks: u64,
 }
 
 fn layer_tag(name: &str) -> u64 {
@@ -251,215 +265,384 @@ pub fn run_seed_for<L: Layer>(layer: &L, seed: u64, config: u64, run: u64) -> u6
     derive(seed, &[layer_tag(layer.name()), config, run])
 }
 
-const CHUNK: u64 = 256;
-/// A single run normally takes well under a millisecond; one that has not finished after
-/// this long is reported as a hang (liveness violation), with the case regenerated from
-/// its seed. Real time is used for nothing else.
-const HANG_AFTER: Duration = Duration::from_secs(120);
+/// A chunk that has not finished after this long is reported as a hang (liveness violation);
+/// a normal chunk takes milliseconds. Real time is used for nothing else.
+const HANG_AFTER: Duration = Duration::from_secs(300);
 
-pub fn run_batch<L: Layer>(layer: &L, cfg: &BatchCfg) -> BatchResult<L::Case> {
+/// Execute runs `from..to` sequentially in THIS process (child side of the driver; also used
+/// for exact prefix replays).
+pub fn run_chunk<L: Layer>(layer: &L, cfg: &BatchCfg, from: u64, to: u64) -> BatchResult<L::Case> {
+    run_list(layer, cfg, from, from..to)
+}
+
+/// Execute the given runs of a batch, in the given order, in THIS process.
+pub fn run_list<L: Layer>(layer: &L, cfg: &BatchCfg, from: u64, runs: impl Iterator<Item = u64>) -> BatchResult<L::Case> {
     install_panic_hook();
     let t0 = Instant::now();
-    let next_chunk = AtomicU64::new(0);
-    let stop = AtomicBool::new(false);
-    let total_chunks = cfg.runs.div_ceil(CHUNK);
-    let n_counters = layer.counter_names().len();
-
-    struct Shared<C> {
-        stats: Stats,
-        steps: u64,
-        runs: u64,
-        digest: u64,
-        failures: BTreeMap<String, Failure<C>>,
-        violating_runs: u64,
-        harness_errors: Vec<String>,
-        samples: Vec<(u64, C)>,
-    }
-    let shared = Mutex::new(Shared::<L::Case> {
-        stats: Stats::new(n_counters),
-        steps: 0,
+    let mut stats = Stats::new(layer.counter_names().len());
+    let mut res = BatchResult {
         runs: 0,
-        digest: 0,
-        failures: BTreeMap::new(),
+        steps: 0,
+        stats: Stats::default(),
+        batch_digest: 0,
+        failures: Vec::new(),
         violating_runs: 0,
         harness_errors: Vec::new(),
         samples: Vec::new(),
-    });
-    // per-worker "currently running" slots for the hang watchdog: (run index + 1, start ms)
-    #[repr(align(128))] // one cache line per worker: no false sharing in the hot loop
-    struct Slot(AtomicU64, AtomicU64);
-    let slots: Arc<Vec<Slot>> =
-        Arc::new((0..cfg.workers).map(|_| Slot(AtomicU64::new(0), AtomicU64::new(0))).collect());
-    let hang: Mutex<Option<(u64, u64)>> = Mutex::new(None);
-    let done = AtomicBool::new(false);
+        wall: Duration::ZERO,
+        chunks: 1,
+    };
+    for run in runs {
+        let rs = run_seed_for(layer, cfg.seed, cfg.config, run);
+        let case = layer.generate(rs, cfg.config, cfg.scale);
+        let out = layer.execute(&case, &mut stats);
+        res.runs += 1;
+        res.steps += out.steps;
+        res.batch_digest = res.batch_digest.wrapping_add(derive(out.digest, &[run]));
+        if (run as usize) < cfg.samples {
+            res.samples.push((run, case.clone()));
+        }
+        if let Some(e) = out.harness_error {
+            if res.harness_errors.len() < 8 {
+                res.harness_errors.push(format!("run {run}: {e}"));
+            }
+        }
+        if let Some(v) = out.violation {
+            res.violating_runs += 1;
+            let key = v.key();
+            if !res.failures.iter().any(|f| f.violation.key() == key) {
+                res.failures.push(Failure {
+                    run,
+                    run_seed: rs,
+                    chunk_start: from,
+                    case,
+                    violation: v,
+                });
+            }
+        }
+    }
+    res.stats = stats;
+    res.wall = t0.elapsed();
+    res
+}
 
+// ---- wire format between child and parent (little-endian, length-prefixed) ----
+
+struct W(Vec<u8>);
+impl W {
+    fn u64(&mut self, x: u64) {
+        self.0.extend_from_slice(&x.to_le_bytes());
+    }
+    fn str(&mut self, s: &str) {
+        self.u64(s.len() as u64);
+        self.0.extend_from_slice(s.as_bytes());
+    }
+    fn set(&mut self, s: &HashSet<u64>) {
+        self.u64(s.len() as u64);
+        for x in s {
+            self.u64(*x);
+        }
+    }
+}
+struct R<'a>(&'a [u8], usize);
+impl R<'_> {
+    fn u64(&mut self) -> Result<u64, String> {
+        let b = self.0.get(self.1..self.1 + 8).ok_or("chunk result truncated")?;
+        self.1 += 8;
+        Ok(u64::from_le_bytes(b.try_into().unwrap()))
+    }
+    fn str(&mut self) -> Result<String, String> {
+        let n = self.u64()? as usize;
+        let b = self.0.get(self.1..self.1 + n).ok_or("chunk result truncated")?;
+        self.1 += n;
+        String::from_utf8(b.to_vec()).map_err(|e| e.to_string())
+    }
+    fn set(&mut self) -> Result<HashSet<u64>, String> {
+        let n = self.u64()? as usize;
+        let mut s = HashSet::with_capacity(n);
+        for _ in 0..n {
+            s.insert(self.u64()?);
+        }
+        Ok(s)
+    }
+}
+
+const MAGIC: u64 = 0x3143_5356_4b4e_4843; // "CHNKVSC1"
+
+pub fn encode_chunk<L: Layer>(layer: &L, r: &BatchResult<L::Case>) -> Vec<u8> {
+    let mut w = W(Vec::new());
+    w.u64(MAGIC);
+    w.u64(r.runs);
+    w.u64(r.steps);
+    w.u64(r.batch_digest);
+    w.u64(r.violating_runs);
+    w.u64(r.stats.counters.len() as u64);
+    for c in &r.stats.counters {
+        w.u64(*c);
+    }
+    w.set(&r.stats.states);
+    w.set(&r.stats.distinct);
+    w.u64(r.stats.num_sets.len() as u64);
+    for (k, v) in &r.stats.num_sets {
+        w.str(k);
+        w.set(v);
+    }
+    w.u64(r.stats.sets.len() as u64);
+    for (k, v) in &r.stats.sets {
+        w.str(k);
+        w.u64(v.len() as u64);
+        for s in v {
+            w.str(s);
+        }
+    }
+    w.u64(r.failures.len() as u64);
+    for f in &r.failures {
+        w.u64(f.run);
+        w.u64(f.run_seed);
+        w.u64(f.chunk_start);
+        w.str(&f.violation.class);
+        w.str(&f.violation.site);
+        w.u64(f.violation.step as u64);
+        w.str(&f.violation.detail);
+        w.str(&layer.case_to_json(&f.case).to_compact());
+    }
+    w.u64(r.harness_errors.len() as u64);
+    for e in &r.harness_errors {
+        w.str(e);
+    }
+    w.u64(r.samples.len() as u64);
+    for (run, c) in &r.samples {
+        w.u64(*run);
+        w.str(&layer.case_to_json(c).to_compact());
+    }
+    w.u64(MAGIC);
+    w.0
+}
+
+/// Names of sets arrive as owned strings; the statistics use `&'static str` keys, so they are
+/// interned (leaked once per distinct name — a handful per process).
+fn intern(name: String) -> &'static str {
+    static NAMES: Mutex<Vec<&'static str>> = Mutex::new(Vec::new());
+    let mut g = NAMES.lock().unwrap();
+    if let Some(n) = g.iter().find(|n| **n == name) {
+        return n;
+    }
+    let leaked: &'static str = Box::leak(name.into_boxed_str());
+    g.push(leaked);
+    leaked
+}
+
+pub fn decode_chunk<L: Layer>(layer: &L, bytes: &[u8]) -> Result<BatchResult<L::Case>, String> {
+    let mut r = R(bytes, 0);
+    if r.u64()? != MAGIC {
+        return Err("bad chunk header".into());
+    }
+    let runs = r.u64()?;
+    let steps = r.u64()?;
+    let batch_digest = r.u64()?;
+    let violating_runs = r.u64()?;
+    let mut stats = Stats::default();
+    for _ in 0..r.u64()? {
+        stats.counters.push(r.u64()?);
+    }
+    stats.states = r.set()?;
+    stats.distinct = r.set()?;
+    for _ in 0..r.u64()? {
+        let k = intern(r.str()?);
+        let v = r.set()?;
+        stats.num_sets.insert(k, v);
+    }
+    for _ in 0..r.u64()? {
+        let k = intern(r.str()?);
+        let mut v = BTreeSet::new();
+        for _ in 0..r.u64()? {
+            v.insert(r.str()?);
+        }
+        stats.sets.insert(k, v);
+    }
+    let mut failures = Vec::new();
+    for _ in 0..r.u64()? {
+        let run = r.u64()?;
+        let run_seed = r.u64()?;
+        let chunk_start = r.u64()?;
+        let class = r.str()?;
+        let site = r.str()?;
+        let step = r.u64()? as usize;
+        let detail = r.str()?;
+        let case = layer.case_from_json(&crate::json::parse(&r.str()?)?)?;
+        failures.push(Failure {
+            run,
+            run_seed,
+            chunk_start,
+            case,
+            violation: Violation { class, site, step, detail },
+        });
+    }
+    let mut harness_errors = Vec::new();
+    for _ in 0..r.u64()? {
+        harness_errors.push(r.str()?);
+    }
+    let mut samples = Vec::new();
+    for _ in 0..r.u64()? {
+        let run = r.u64()?;
+        samples.push((run, layer.case_from_json(&crate::json::parse(&r.str()?)?)?));
+    }
+    if r.u64()? != MAGIC {
+        return Err("bad chunk trailer".into());
+    }
+    Ok(BatchResult {
+        runs,
+        steps,
+        stats,
+        batch_digest,
+        failures,
+        violating_runs,
+        harness_errors,
+        samples,
+        wall: Duration::ZERO,
+        chunks: 1,
+    })
+}
+
+/// Parent side: schedule chunks on `cfg.workers` threads, each chunk in a fresh child process.
+pub fn run_batch<L: Layer>(layer: &L, cfg: &BatchCfg) -> BatchResult<L::Case> {
+    let t0 = Instant::now();
+    let exe = std::env::current_exe().expect("current_exe");
+    let chunk = layer.chunk_runs();
+    let total_chunks = cfg.runs.div_ceil(chunk);
+    let next_chunk = AtomicU64::new(0);
+    let merged = Mutex::new(BatchResult::<L::Case> {
+        runs: 0,
+        steps: 0,
+        stats: Stats::new(layer.counter_names().len()),
+        batch_digest: 0,
+        failures: Vec::new(),
+        violating_runs: 0,
+        harness_errors: Vec::new(),
+        samples: Vec::new(),
+        wall: Duration::ZERO,
+        chunks: 0,
+    });
+    let stop = AtomicBool::new(false);
     std::thread::scope(|scope| {
-        // watchdog
-        {
-            let slots = slots.clone();
-            let hang = &hang;
-            let done = &done;
-            let stop = &stop;
-            scope.spawn(move || {
-                while !done.load(Ordering::Relaxed) {
-                    std::thread::sleep(Duration::from_millis(200));
-                    let now = t0.elapsed().as_millis() as u64;
-                    for slot in slots.iter() {
-                        let r = slot.0.load(Ordering::Relaxed);
-                        let s = slot.1.load(Ordering::Relaxed);
-                        if r != 0 && now.saturating_sub(s) > HANG_AFTER.as_millis() as u64 {
-                            let mut h = hang.lock().unwrap();
-                            if h.is_none() {
-                                *h = Some((r - 1, 0));
+        for _ in 0..cfg.workers.max(1) {
+            scope.spawn(|| loop {
+                if stop.load(Ordering::Relaxed) {
+                    break;
+                }
+                let c = next_chunk.fetch_add(1, Ordering::Relaxed);
+                match cfg.time_budget {
+                    None if c >= total_chunks => break,
+                    // the fixed run count is a floor; beyond it, stop on time
+                    Some(b) if c >= total_chunks && t0.elapsed() >= b => break,
+                    _ => {}
+                }
+                let from = c * chunk;
+                let to = if cfg.time_budget.is_none() { (from + chunk).min(cfg.runs) } else { from + chunk };
+                let mut cmd = std::process::Command::new(&exe);
+                cmd.args(["chunk", "--layer", layer.name(), "--config"])
+                    .arg(cfg.config.to_string())
+                    .args(["--seed", &cfg.seed.to_string(), "--scale", &cfg.scale.to_string()])
+                    .args(["--from", &from.to_string(), "--to", &to.to_string()])
+                    .args(["--samples", &cfg.samples.to_string()])
+                    .stdin(std::process::Stdio::null())
+                    .stdout(std::process::Stdio::piped())
+                    .stderr(std::process::Stdio::piped());
+                let started = Instant::now();
+                let outcome: Result<BatchResult<L::Case>, Failure<L::Case>> = (|| {
+                    let hang = |what: String| Failure {
+                        run: from,
+                        run_seed: run_seed_for(layer, cfg.seed, cfg.config, from),
+                        chunk_start: from,
+                        case: layer.generate(run_seed_for(layer, cfg.seed, cfg.config, from), cfg.config, cfg.scale),
+                        violation: Violation {
+                            class: "hang-or-crash".into(),
+                            site: "chunk".into(),
+                            step: 0,
+                            detail: what,
+                        },
+                    };
+                    let mut child = cmd.spawn().map_err(|e| hang(format!("cannot spawn chunk process: {e}")))?;
+                    // read stdout on this thread; a watchdog thread kills a child that overstays
+                    let mut out = child.stdout.take().unwrap();
+                    let mut err = child.stderr.take().unwrap();
+                    let killed = AtomicBool::new(false);
+                    let finished = AtomicBool::new(false);
+                    let id = child.id();
+                    let mut bytes = Vec::new();
+                    let mut errtext = String::new();
+                    std::thread::scope(|s2| {
+                        s2.spawn(|| {
+                            while !finished.load(Ordering::Relaxed) {
+                                if started.elapsed() > HANG_AFTER {
+                                    killed.store(true, Ordering::Relaxed);
+                                    // SIGKILL through the shell-independent std API is on Child only;
+                                    // use the pid with `kill` semantics via libc-free command
+                                    let _ = std::process::Command::new("kill").args(["-9", &id.to_string()]).status();
+                                    break;
+                                }
+                                std::thread::sleep(Duration::from_millis(50));
                             }
-                            stop.store(true, Ordering::Relaxed);
-                            done.store(true, Ordering::Relaxed);
+                        });
+                        use std::io::Read;
+                        let _ = out.read_to_end(&mut bytes);
+                        let _ = err.read_to_string(&mut errtext);
+                        finished.store(true, Ordering::Relaxed);
+                    });
+                    let status = child.wait().map_err(|e| hang(format!("wait failed: {e}")))?;
+                    if killed.load(Ordering::Relaxed) {
+                        return Err(hang(format!(
+                            "runs {from}..{to} did not finish within {}s in a fresh process",
+                            HANG_AFTER.as_secs()
+                        )));
+                    }
+                    if !status.success() {
+                        return Err(hang(format!(
+                            "the process executing runs {from}..{to} died ({status}): {}",
+                            errtext.chars().rev().take(600).collect::<String>().chars().rev().collect::<String>()
+                        )));
+                    }
+                    decode_chunk(layer, &bytes).map_err(|e| hang(format!("unreadable chunk result for runs {from}..{to}: {e}")))
+                })();
+                let mut m = merged.lock().unwrap();
+                m.chunks += 1;
+                match outcome {
+                    Ok(r) => {
+                        m.runs += r.runs;
+                        m.steps += r.steps;
+                        m.batch_digest = m.batch_digest.wrapping_add(r.batch_digest);
+                        m.violating_runs += r.violating_runs;
+                        m.stats.merge(r.stats);
+                        m.harness_errors.extend(r.harness_errors);
+                        m.samples.extend(r.samples);
+                        for f in r.failures {
+                            let key = f.violation.key();
+                            match m.failures.iter().position(|g| g.violation.key() == key) {
+                                Some(i) if m.failures[i].run <= f.run => {}
+                                Some(i) => m.failures[i] = f,
+                                None => m.failures.push(f),
+                            }
+                        }
+                    }
+                    Err(f) => {
+                        m.violating_runs += 1;
+                        let key = f.violation.key();
+                        match m.failures.iter().position(|g| g.violation.key() == key) {
+                            Some(i) if m.failures[i].run <= f.run => {}
+                            Some(i) => m.failures[i] = f,
+                            None => m.failures.push(f),
                         }
                     }
                 }
             });
         }
-        let mut handles = Vec::new();
-        for w in 0..cfg.workers {
-            let shared = &shared;
-            let next_chunk = &next_chunk;
-            let stop = &stop;
-            let slots = slots.clone();
-            handles.push(scope.spawn(move || {
-                let mut local = Stats::new(n_counters);
-                let mut steps = 0u64;
-                let mut runs = 0u64;
-                let mut digest = 0u64;
-                let mut violating = 0u64;
-                let mut fails: Vec<Failure<L::Case>> = Vec::new();
-                let mut herrs: Vec<String> = Vec::new();
-                let mut samples: Vec<(u64, L::Case)> = Vec::new();
-                loop {
-                    if stop.load(Ordering::Relaxed) {
-                        break;
-                    }
-                    let c = next_chunk.fetch_add(1, Ordering::Relaxed);
-                    match cfg.time_budget {
-                        None => {
-                            if c >= total_chunks {
-                                break;
-                            }
-                        }
-                        Some(b) => {
-                            // the fixed run count is a floor; beyond it, stop on time
-                            if c >= total_chunks && t0.elapsed() >= b {
-                                break;
-                            }
-                        }
-                    }
-                    let lo = c * CHUNK;
-                    let hi = if cfg.time_budget.is_none() {
-                        (lo + CHUNK).min(cfg.runs)
-                    } else {
-                        lo + CHUNK
-                    };
-                    for run in lo..hi {
-                        let rs = run_seed_for(layer, cfg.seed, cfg.config, run);
-                        slots[w].1.store(t0.elapsed().as_millis() as u64, Ordering::Relaxed);
-                        slots[w].0.store(run + 1, Ordering::Relaxed);
-                        let case = layer.generate(rs, cfg.config, cfg.scale);
-                        let out = layer.execute(&case, &mut local);
-                        slots[w].0.store(0, Ordering::Relaxed);
-                        runs += 1;
-                        steps += out.steps;
-                        digest = digest.wrapping_add(derive(out.digest, &[run]));
-                        if (run as usize) < cfg.samples {
-                            samples.push((run, case.clone()));
-                        }
-                        if let Some(e) = out.harness_error {
-                            if herrs.len() < 8 {
-                                herrs.push(format!("run {run}: {e}"));
-                            }
-                        }
-                        if let Some(v) = out.violation {
-                            violating += 1;
-                            let key = v.key();
-                            if !fails.iter().any(|f| f.violation.key() == key) {
-                                fails.push(Failure {
-                                    run,
-                                    run_seed: rs,
-                                    case,
-                                    violation: v,
-                                });
-                            }
-                        }
-                    }
-                }
-                let mut sh = shared.lock().unwrap();
-                sh.stats.merge(local);
-                sh.steps += steps;
-                sh.runs += runs;
-                sh.digest = sh.digest.wrapping_add(digest);
-                sh.violating_runs += violating;
-                sh.harness_errors.extend(herrs);
-                sh.samples.extend(samples);
-                for f in fails {
-                    let key = f.violation.key();
-                    match sh.failures.get(&key) {
-                        Some(old) if old.run <= f.run => {}
-                        _ => {
-                            sh.failures.insert(key, f);
-                        }
-                    }
-                }
-            }));
-        }
-        // a worker stuck in a hang never joins; the watchdog flags it and we leave through
-        // process exit in that case (see below)
-        loop {
-            if hang.lock().unwrap().is_some() || handles.iter().all(|h| h.is_finished()) {
-                break;
-            }
-            std::thread::sleep(Duration::from_millis(5));
-        }
-        if hang.lock().unwrap().is_none() {
-            for h in handles {
-                if let Err(p) = h.join() {
-                    std::panic::resume_unwind(p);
-                }
-            }
-        }
-        done.store(true, Ordering::Relaxed);
-        if let Some((run, _)) = *hang.lock().unwrap() {
-            // cannot unwind a spinning thread: report and leave the process
-            let rs = run_seed_for(layer, cfg.seed, cfg.config, run);
-            let case = layer.generate(rs, cfg.config, cfg.scale);
-            let v = Violation {
-                class: "hang".into(),
-                site: "run".into(),
-                step: 0,
-                detail: format!("run {run} did not finish within {}s", HANG_AFTER.as_secs()),
-            };
-            let path = write_replay(layer, cfg, run, rs, &case, &v, 0, "hang");
-            println!("VIOLATION property={} replay={}", layer.property(), path);
-            std::process::exit(1);
-        }
     });
-
-    let sh = shared.into_inner().unwrap();
-    let mut failures: Vec<Failure<L::Case>> = sh.failures.into_values().collect();
-    failures.sort_by_key(|f| f.run);
-    let mut samples = sh.samples;
-    samples.sort_by_key(|s| s.0);
-    let mut harness_errors = sh.harness_errors;
-    harness_errors.sort();
-    BatchResult {
-        runs: sh.runs,
-        steps: sh.steps,
-        stats: sh.stats,
-        batch_digest: sh.digest,
-        failures,
-        violating_runs: sh.violating_runs,
-        harness_errors,
-        samples,
-        wall: t0.elapsed(),
-        hang: None,
-    }
+    let mut m = merged.into_inner().unwrap();
+    m.failures.sort_by_key(|f| f.run);
+    m.samples.sort_by_key(|s| s.0);
+    m.harness_errors.sort();
+    m.wall = t0.elapsed();
+    m
 }
 
 // ---------------------------------------------------------------------------------------
@@ -567,6 +750,81 @@ pub fn write_replay<L: Layer>(
     path
 }
 
+/// Replay spec for a failure that needs the earlier runs of its process (process-wide state in
+/// the system under test) or that killed/hung its process: "runs from..to of this batch, in
+/// order, in one fresh process" — by construction exactly what the batch executed.
+pub fn write_chunk_prefix_replay<L: Layer>(layer: &L, cfg: &BatchCfg, from: u64, to: u64, v: &Violation) -> String {
+    let dir = replay_dir();
+    let _ = std::fs::create_dir_all(&dir);
+    let path = format!(
+        "{}/{}-{}-{}-s{}-c{}-r{}-prefix.json",
+        dir,
+        layer.property(),
+        layer.name(),
+        build_name(),
+        cfg.seed,
+        cfg.config,
+        to.saturating_sub(1)
+    );
+    let mut e = v.to_json();
+    e.set("key", v.key().into());
+    let j = obj(vec![
+        ("property", layer.property().into()),
+        ("layer", layer.name().into()),
+        ("build", build_name().into()),
+        ("kind", "chunk-prefix".into()),
+        ("seed", cfg.seed.into()),
+        ("config", cfg.config.into()),
+        ("scale", cfg.scale.into()),
+        ("from", from.into()),
+        ("to", to.into()),
+        ("expected", e),
+    ]);
+    std::fs::write(&path, j.to_pretty()).expect("cannot write replay file");
+    path
+}
+
+/// Like a chunk prefix, but with an explicit (minimised) list of the runs to execute in order.
+pub fn write_run_list_replay<L: Layer>(layer: &L, cfg: &BatchCfg, runs: &[u64], v: &Violation, tag: &str) -> String {
+    let dir = replay_dir();
+    let _ = std::fs::create_dir_all(&dir);
+    let path = format!(
+        "{}/{}-{}-{}-s{}-c{}-r{}-runs{}.json",
+        dir,
+        layer.property(),
+        layer.name(),
+        build_name(),
+        cfg.seed,
+        cfg.config,
+        runs.last().copied().unwrap_or(0),
+        tag
+    );
+    let mut e = v.to_json();
+    e.set("key", v.key().into());
+    let j = obj(vec![
+        ("property", layer.property().into()),
+        ("layer", layer.name().into()),
+        ("build", build_name().into()),
+        ("kind", "run-list".into()),
+        ("seed", cfg.seed.into()),
+        ("config", cfg.config.into()),
+        ("scale", cfg.scale.into()),
+        ("runs", J::Arr(runs.iter().map(|r| J::Int(*r as i64)).collect())),
+        (
+            "cases",
+            J::Arr(
+                runs.iter()
+                    .map(|r| layer.case_to_json(&layer.generate(run_seed_for(layer, cfg.seed, cfg.config, *r), cfg.config, cfg.scale)))
+                    .take(8)
+                    .collect(),
+            ),
+        ),
+        ("expected", e),
+    ]);
+    std::fs::write(&path, j.to_pretty()).expect("cannot write replay file");
+    path
+}
+
 pub struct ReplayResult {
     pub reproduced: bool,
     pub violation: Option<Violation>,
@@ -627,7 +885,7 @@ pub fn chunk_removals<T: Clone>(xs: &[T]) -> Vec<Vec<T>> {
             break;
         }
         size = size.div_ceil(2);
-        if out.len() > 4096 {
+        if out.len() > 4096 || out.len() * n > 30_000_000 {
             break;
         }
     }
